@@ -591,7 +591,7 @@ func (c *Ctx) c20Cache() {
 		hk := c.P.FuncKey(h)
 		o := c.P.OriginsOf(h)
 		var gets, sets []ssa.CallInstruction
-		for _, ci := range Calls(h) {
+		for _, ci := range c.opCalls(h) {
 			switch c.P.Describe(ci).Name {
 			case "mint.(*Cache).Get":
 				gets = append(gets, ci)
@@ -611,7 +611,10 @@ func (c *Ctx) c20Cache() {
 			continue
 		}
 		g, s := c.P.Describe(gets[0]), c.P.Describe(sets[0])
-		kg, ks := o.Of(g.Args[0]), o.Of(s.Args[0])
+		kg, ks := c.CtxOf(gets[0]).Of(g.Args[0]), c.CtxOf(sets[0]).Of(s.Args[0])
+		// the instruction of the handler through which the store happens (the store itself, or the call of the
+		// helper that is new on this tree and contains it)
+		setSite := c.siteIn(h, sets[0])
 		want := "((P:" + h.Params[2].Name() + ".Method + net/url.(*URL).String(P:" + h.Params[2].Name() + ".URL)) + io.ReadAll#0(P:" + h.Params[2].Name() + ".Body))"
 		R.Check("R4", hk, "cache key = Method + URL + raw body", c.P.InstrPos(gets[0]), kg.String() == want, "the key is the request method, the URL and the complete raw body", "key is "+short(kg.String(), 200))
 		R.Check("R4", hk, "look-up and store use the same key", c.P.InstrPos(sets[0]), kg.String() == ks.String(), "the response is stored under the key it is looked up with", "store key is "+short(ks.String(), 200))
@@ -626,16 +629,16 @@ func (c *Ctx) c20Cache() {
 			okOp := &Cond{Name: "operation succeeded", Match: func(ft *Fact, _ *Origins) bool {
 				return ft.Kind == "errnil" && ft.Pos && ft.A.K == "call" && ft.A.Call == oc
 			}}
-			ok2, why2 := o.Requires(sets[0], okOp)
+			ok2, why2 := c.RequireAt(sets[0], okOp)
 			R.Check("R4", hk, "store <= operation succeeded", c.P.InstrPos(sets[0]), ok2, "only successful responses are cached", why2)
 		}
-		val := o.Of(s.Args[1])
+		val := c.CtxOf(sets[0]).Of(s.Args[1])
 		okM := isCall(val, "encoding/json.Marshal") && val.Idx == 0
 		marshalOK := &Cond{Name: "marshalling succeeded", Match: func(ft *Fact, _ *Origins) bool {
 			return ft.Kind == "errnil" && ft.Pos && ft.A.K == "call" && ft.A.Call == val.Call
 		}}
 		if okM {
-			ok3, why3 := o.Requires(sets[0], marshalOK)
+			ok3, why3 := c.RequireAt(sets[0], marshalOK)
 			R.Check("R4", hk, "store <= marshalling succeeded", c.P.InstrPos(sets[0]), ok3, "the cached bytes are a successfully marshalled response", why3)
 		}
 		// the bytes stored are the bytes written after the store
@@ -643,7 +646,10 @@ func (c *Ctx) c20Cache() {
 		for _, ci := range Calls(h) {
 			d := c.P.Describe(ci)
 			if d.Iface != nil && d.Iface.Name() == "Write" {
-				if reach, _ := o.ReachAvoiding(sets[0], ci, NewCut()); reach {
+				if setSite == nil {
+					continue
+				}
+				if reach, _ := o.ReachAvoiding(setSite, ci, NewCut()); reach {
 					okW = o.Of(d.Args[0]).String() == val.String()
 				}
 			}
@@ -728,6 +734,26 @@ func lenPositive(f *Fact) *Ex {
 		if f.Pos && isConst(f.A, "1") && f.B != nil && f.B.K == "len" {
 			return f.B.Args[0]
 		}
+	}
+	return nil
+}
+
+// siteIn returns the instruction of fn through which in is executed: in itself, or the call (in fn) of the
+// helper chain that is new on this tree and contains it; nil when there is no unique such call.
+func (c *Ctx) siteIn(fn *ssa.Function, in ssa.Instruction) ssa.Instruction {
+	for i := 0; i < 4 && in != nil; i++ {
+		if in.Parent() == fn {
+			return in
+		}
+		g := in.Parent()
+		if g.Parent() != nil || !c.P.IsNewFunc(g) {
+			return nil
+		}
+		sites := c.sitesInScope(c.callersOf(g))
+		if len(sites) != 1 {
+			return nil
+		}
+		in = sites[0]
 	}
 	return nil
 }
